@@ -490,6 +490,7 @@ ERR_TOKENS = {
     "Ntype": (ref.NMEA, "frame", ref.nmea_sentence("GNGGA,080247.00,5327.04300,N,00214.41385,W,x,07,1.63,36.7,M,48.5,M,,")),  # NMEATypeError
     "Utype": (ref.UBX, "frame", ref.frame(0x0B, 0x02, b"\x00")),  # AID-HUI cut inside a field: UBXTypeError
     "Umsg": (ref.UBX, "frame", ref.frame(0x06, 0x8B, bytes(9))),  # CFG-VALGET with key 0: UBXMessageError
+    "Umga": (ref.UBX, "frame", ref.frame(0x13, 0x60, b"\x07" + bytes(7))),  # MGA-ACK with a type byte no definition exists for
     # zero-length RTCM3 frames with a wrong CRC whose last byte is a frame-start byte (all 6 bytes belong to the frame)
     "RzB5": (ref.RTCM, "frame", b"\xd3\x00\x00\x47\xea\xb5"),
     "Rz24": (ref.RTCM, "frame", b"\xd3\x00\x00\x47\xea\x24"),
@@ -504,10 +505,25 @@ SWALLOW_TOKENS = {
     "sw_7fff": (0, "swallow", b"\xb5\x62\x05\x01\xff\x7f"),
     "sw_rtcm": (0, "swallow", b"\xd3\x03\xff"),
 }
+# one well-formed sentence per first letter an NMEA talker can begin with (the set pynmeagps publishes as NMEA_HDR):
+# BeiDou BD, integrated navigation IN, compass HC, Loran LC, ... (kept out of the deep enumerations)
+def _talker_tokens():
+    from pynmeagps import NMEA_TALKERS
+    out = {}
+    for hdr in sorted(NMEA_HDR):
+        letter = hdr[1:2].decode()
+        tk = next((t for t in sorted(NMEA_TALKERS) if t.startswith(letter) and len(t) == 2), letter + "X")
+        body = "PUBX,00,1" if tk[0] == "P" else tk + "GLL,5327.04319,S,00214.41396,E,223232.00,A,A"
+        out["Nt" + letter] = (ref.NMEA, "frame", ref.nmea_sentence(body))
+    return out
+
+
+TALKER_TOKENS = _talker_tokens()
 TOKENS.update(LONG_TOKENS)
 TOKENS.update(ERR_TOKENS)
 TOKENS.update(SWALLOW_TOKENS)
-LONG_NAMES = list(LONG_TOKENS) + list(ERR_TOKENS)
+TOKENS.update(TALKER_TOKENS)
+LONG_NAMES = list(LONG_TOKENS) + list(ERR_TOKENS) + list(TALKER_TOKENS)
 FRAME_TOKENS = [k for k, v in TOKENS.items() if v[1] == "frame" and k not in LONG_NAMES]
 NOISE_TOKENS = [k for k, v in TOKENS.items() if v[1] == "noise"]
 FRAG_TOKENS = [k for k, v in TOKENS.items() if v[1] == "frag"]
@@ -532,6 +548,8 @@ def token_verdict(name, cfg):
             p = RTCMReader.parse(b, validate=cfg.get("validate", 1), labelmsm=1)
     except PROTO_ERRORS as e:
         return ("rej", exc_sig(e))
+    except Exception as e:  # noqa: BLE001 - a foreign exception is a refusal too (C08 reports the class)
+        return ("rej", ("foreign", type(e).__name__))
     return ("ok", sig(p))
 
 
